@@ -126,9 +126,13 @@ def finding_key(req, obs, detail):
 
 SPEC = {
     "id": "C04",
-    "gens": ["SlotTables"] + LEG_GENS,
+    "gens": ["SlotTables", "FixpointTables", "RankTable", "TypingTables", "HlslGenTables"] + LEG_GENS,
     "lean_modules": ["RsslVerif.Thm.C04"] + LEG_MODULES,
-    "theorems": [T + "slots_stable", T + "run_explicit", T + "step_explicit"] + LEG_THEOREMS,
+    "theorems": [T + n for n in [
+        "slots_stable", "run_explicit", "step_explicit",
+        "reread_table_agrees", "cast_drop_agrees", "reread_only_int32",
+        "reelab_no_new_casts", "reelab_stmt_no_new_casts", "export_is_source", "unelab_is_export", "renamed_exists",
+        "reelab_idempotent", "reelab_fails_out_argument"]] + LEG_THEOREMS,
     "harness": "c04",
     "custom": custom,
     "nontrivial": nontrivial,
